@@ -37,7 +37,8 @@ Print Assumptions get_ok_attachment_faithful.
    number other than the requested one at some position = renumbered,
    reordered or duplicated element, broken parent link, receipt / log / trace
    naming another block or outside the range, block-hash skew between header
-   and item, null header for the logs' last block, transport failure) makes
+   and item or between the header fetched before and the header that comes
+   with eth_getLogs, null header for the logs' last block, transport failure) makes
    the request fail — an error, never a panic, never data *)
 Theorem get_rejects_corruption : forall p s l w, corrupted p s l w -> get p s l w = Err.
 Proof. exact get_rejects. Qed.
@@ -86,11 +87,13 @@ Theorem legacy_defect_witnesses :
       /\ legacy_get pl_hl 5 1 w_skew = Ok [mkBlock 5 [99] [50] [5] [mkTx 0 [100] [] [] [] [mkLog 0 [7]] []]]
       /\ get pl_hl 5 1 w_skew = Err)
   /\ (legacy_get pl_l 5 1 w_logs_short = Panic /\ get pl_l 5 1 w_logs_short = Err)
+  /\ (corrupted pl_hl 5 1 w_reorg_empty /\ legacy_get pl_hl 5 1 w_reorg_empty = Ok [hb 5 51 50]
+      /\ get pl_hl 5 1 w_reorg_empty = Err)
   /\ legacy_latest (RBody (mkHreply false None)) = Panic.
 Proof.
   exact (conj legacy_accepts_renumbered (conj legacy_accepts_null_block (conj legacy_accepts_misplaced_receipts
         (conj legacy_accepts_null_receipts (conj legacy_accepts_misplaced_traces (conj legacy_accepts_hash_skew
-        (conj legacy_panics_on_short_logs_batch legacy_head_panics))))))).
+        (conj legacy_panics_on_short_logs_batch (conj legacy_accepts_logs_of_other_chain legacy_head_panics)))))))).
 Qed.
 Print Assumptions legacy_defect_witnesses.
 
